@@ -122,9 +122,38 @@ def iterate_pair(ds, r):
     return [oa, ob]
 
 
+def iterate_multi(ds, r):
+    """Several streams of one interface alive at once; the consumer pulls from / drops them in the given order.
+    ops: ["P", i] = next(stream i), ["A", i] = close stream i.  Answer per op: the example value, "stop", "error:<type>", or None (drop)."""
+    m = r["multi"]
+    its = [make_iter(ds, dict(q, iface=r["iface"])) for q in m["streams"]]
+    ans = []
+    for kind, i in m["ops"]:
+        if kind == "A":
+            try:
+                c = getattr(its[i], "close", None)
+                if c is not None:
+                    c()
+                else:
+                    its[i] = iter(())
+                ans.append(None)
+            except BaseException as ex:  # noqa: BLE001
+                ans.append("error:" + type(ex).__name__)
+            continue
+        try:
+            ans.append(val(next(its[i])))
+        except StopIteration:
+            ans.append("stop")
+        except BaseException as ex:  # noqa: BLE001
+            ans.append("error:" + type(ex).__name__)
+    return ans
+
+
 def iterate_ds(ds, r):
     if r.get("pair"):
         return iterate_pair(ds, r)
+    if r.get("multi"):
+        return iterate_multi(ds, r)
     split = SPLITS[r["split"]]
     kw = {"split": split, "repeat": r.get("repeat", False), "shuffle": r.get("shuffle", 0)}
     if r.get("shards") is not None:
